@@ -71,7 +71,7 @@ class PermutedMesh:
         """
         corner_indices = self._mesh.connectivity(cell_type)
         if self._inverse_point_permutation is not None:
-            corner_indices = self._inverse_point_permutation[corner_indices]
+            corner_indices = self._map_corner_indices(corner_indices, self._inverse_point_permutation)
         return self.transform_cell_data(cell_type, corner_indices)
 
     def transform_point_data(self, data: Array) -> Array:
@@ -130,6 +130,15 @@ class PermutedMesh:
         result = tol(self._mesh.points, self._mesh.points) if isinstance(tol, DynamicTolerance) else tol
         assert isinstance(result, float)
         return result
+
+    def _map_corner_indices(self, corner_indices: Array, index_map: Array) -> Array:
+        if corner_indices.dtype != object:
+            return index_map[corner_indices]
+        # cells of the same type may have differing numbers of corners (e.g. polygons)
+        mapped = make_uninitialized_array(len(corner_indices), dtype=object)
+        for i, corners in enumerate(corner_indices):
+            mapped[i] = index_map[make_array(corners, dtype=int)]
+        return mapped
 
     def _make_inverse_point_permutation(self) -> Array | None:
         if self._point_permutation is None:
